@@ -159,10 +159,16 @@ def requests_in(fn):
     """callee texts of the driver requests `yield (CALL, callee, pos)` inside an emitted function"""
     out = []
     for n in ast.walk(fn):
-        if isinstance(n, ast.Yield) and isinstance(n.value, ast.Tuple) and len(n.value.elts) == 3 \
+        if isinstance(n, ast.Yield) and isinstance(n.value, ast.Tuple) and len(n.value.elts) >= 3 \
                 and isinstance(n.value.elts[0], ast.Constant) and n.value.elts[0].value == 3:
+            # a request with MORE than three components is still a request (its shape is an obligation of its own: memo_key_obligations)
             out.append(((n.lineno, n.col_offset), ast.unparse(n.value.elts[1])))
     return [t for _, t in sorted(out)]          # in source order
+
+
+def request_arities(fn):
+    return sorted({len(n.value.elts) for n in ast.walk(fn) if isinstance(n, ast.Yield) and isinstance(n.value, ast.Tuple) and n.value.elts
+                   and isinstance(n.value.elts[0], ast.Constant) and n.value.elts[0].value == 3})
 
 
 SHADOW_CASES = [
@@ -268,7 +274,13 @@ def memo_key_obligations(rep, tier, unit='wiring:memo-key'):
     for ctx in (False, True):
         r = X.Ref('A'); r._resolved = X.implementation_name('A')
         direct = ast.parse(frag.emit(r, ctx))
-        callee = requests_in(direct)[0]
+        rep.add(unit, f'a rule reference requests exactly (CALL, callee, position): _run memoises on the whole request tuple [ctx={int(ctx)}]', 'case_complete',
+                request_arities(direct) == [3], detail={'arities': request_arities(direct), 'src': ast.unparse(direct)})
+        reqs_ = requests_in(direct)
+        if not reqs_:
+            rep.add(unit, f'a rule reference emits a request [ctx={int(ctx)}]', 'case_complete', False, detail={'src': ast.unparse(direct)})
+            continue
+        callee = reqs_[0]
         r2 = X.Ref('A'); r2._resolved = X.implementation_name('A')
         call = X.Call(_ref('T'), [r2])
         src = frag.emit(call, ctx)
@@ -1166,6 +1178,11 @@ def generator_state_obligations(rep, tier, unit='syntactic:generator-is-stateles
         allowed = [b for b in bad if 'sys.modules' in b]
         bad = [b for b in bad if b not in allowed]
         rep.add(unit, f'{os.path.relpath(path, paths.REPO)}: functions write no module-level state', 'syntactic', not bad, detail={'found': bad})
+        # state can also hide in a decorator (functools.lru_cache / cache keep every earlier call): only decorators that keep nothing
+        decos = sorted({ast.unparse(d) for fn in ast.walk(tree) if isinstance(fn, (ast.FunctionDef, ast.ClassDef)) for d in fn.decorator_list})
+        stateless = {'contextmanager', 'contextlib.contextmanager', 'staticmethod', 'classmethod', 'property', 'functools.wraps', 'wraps', 'abstractmethod', 'abc.abstractmethod'}
+        other = [d for d in decos if d.split('(')[0] not in stateless]
+        rep.add(unit, f'{os.path.relpath(path, paths.REPO)}: no decorator that can keep state between calls (caches)', 'syntactic', not other, detail={'decorators': other})
     # Grammar(): include_source flows only into the source_var argument of the code builder's compile() (taint analysis inside Grammar)
     gtree = ast.parse(open(os.path.join(root, 'grammar.py')).read())
     gfn = next((n for n in gtree.body if isinstance(n, ast.FunctionDef) and 'include_source' in astutil.params_of(n)), None)
